@@ -27,8 +27,6 @@ pub struct CaseInput {
     /// (end offset of the segment, pause in microseconds after it)
     pub cuts: Vec<(usize, u32)>,
     pub seg_kind: &'static str,
-    /// every unmutated request carries Content-Length or Transfer-Encoding
-    pub explicit_framing: bool,
     /// the generator claims that every request of the input is valid per RFC 9112
     pub built_valid: bool,
     pub intended: Vec<Intended>,
@@ -122,18 +120,6 @@ fn mixed_case(rng: &mut Rng, s: &str) -> Vec<u8> {
     }
 }
 
-/// framing header of the base grammar: trailing OWS only rarely (sozu mis-reads `chunked<SP>`
-/// and refuses `5<SP>`, which would hide the rest of the pipeline from every other operator)
-fn framing_line(rng: &mut Rng, name: &[u8], value: &[u8]) -> Vec<u8> {
-    let mut l = ows_line(rng, name, value);
-    if !rng.chance(1, 40) {
-        while matches!(l.last(), Some(b' ') | Some(b'\t')) {
-            l.pop();
-        }
-    }
-    l
-}
-
 fn ows_line(rng: &mut Rng, name: &[u8], value: &[u8]) -> Vec<u8> {
     let mut l = name.to_vec();
     l.push(b':');
@@ -177,7 +163,7 @@ pub fn chunked(rng: &mut Rng, data: &[u8], trailers: &[(&str, &str)], plain: boo
 }
 
 /// a valid request; `id` seeds the body keystream and names the target
-pub fn valid_request(rng: &mut Rng, case: u64, i: usize, want_body: Option<bool>, explicit: bool) -> (Wire, Intended) {
+pub fn valid_request(rng: &mut Rng, case: u64, i: usize, want_body: Option<bool>) -> (Wire, Intended) {
     let mut method = rng.pick(METHODS).to_string();
     let path = format!("/c{case}-r{i}{}", match rng.below(6) {
         0 => "/a/b/../c".to_string(),
@@ -219,7 +205,7 @@ pub fn valid_request(rng: &mut Rng, case: u64, i: usize, want_body: Option<bool>
     w.push(&rl);
     let mut hdrs: Vec<Vec<u8>> = Vec::new();
     let host_name = mixed_case(rng, "Host");
-    hdrs.push(framing_line(rng, &host_name, &host_hdr));
+    hdrs.push(ows_line(rng, &host_name, &host_hdr));
     for _ in 0..rng.urange(0, 5) {
         let (k, v) = *rng.pick(BENIGN);
         let name = mixed_case(rng, k);
@@ -235,18 +221,19 @@ pub fn valid_request(rng: &mut Rng, case: u64, i: usize, want_body: Option<bool>
             if rng.chance(1, 10) {
                 v = format!("0{v}");
             }
-            hdrs.push(framing_line(rng, &name, v.as_bytes()));
+            hdrs.push(ows_line(rng, &name, v.as_bytes()));
             w.body = data.clone();
         }
         2 => {
             let name = mixed_case(rng, "Transfer-Encoding");
             let v = mixed_case(rng, "chunked");
-            hdrs.push(framing_line(rng, &name, &v));
+            hdrs.push(ows_line(rng, &name, &v));
             let trailers: &[(&str, &str)] = if rng.chance(1, 5) { &[("X-Trailer", "t1"), ("X-Checksum", "00ff")] } else { &[] };
             w.body = chunked(rng, &data, trailers, false);
         }
         _ => {
-            if explicit {
+            // no framing header at all (the common bodyless request), sometimes an explicit zero
+            if rng.chance(1, 4) {
                 hdrs.push(b"Content-Length: 0".to_vec());
             }
         }
@@ -1055,10 +1042,6 @@ pub fn build(seed: u64, case: u64) -> CaseInput {
             _ => n - 1,
         }
     };
-    // sozu forwards everything that follows a request without Content-Length / Transfer-Encoding
-    // as an opaque body (finding `extra_request/request_not_seen_by_sozu`): most cases give every
-    // request an explicit framing so that the rest of the pipeline is actually parsed by sozu
-    let explicit = !rng.chance(1, 7);
     let mut bytes = Vec::new();
     let mut intended = Vec::new();
     let mut built_valid = true;
@@ -1066,7 +1049,7 @@ pub fn build(seed: u64, case: u64) -> CaseInput {
     let mut marker = Vec::new();
     let mut mutated_index = None;
     for i in 0..n {
-        let (mut w, mut it) = valid_request(&mut rng, case, i, None, explicit);
+        let (mut w, mut it) = valid_request(&mut rng, case, i, None);
         if i == pos_req {
             let r = apply(family, &mut rng, case, i, &mut w, &mut it);
             op = r.name;
@@ -1108,7 +1091,6 @@ pub fn build(seed: u64, case: u64) -> CaseInput {
         bytes,
         cuts,
         seg_kind,
-        explicit_framing: explicit,
         built_valid,
         intended,
         mutated_index,
